@@ -6,6 +6,8 @@
 // to depth d over {serve a piece to a leecher | receive a piece from a seeder,
 // advance the clock, preemption tick, manual removal}, for a seeding and for a
 // leeching torrent, against a reference timeline model.
+// conc.go adds the concurrent part: 2-3 peers whose piece writes / piece reads
+// on one torrent overlap (suspension points at the storage and conn boundary).
 package main
 
 import (
@@ -408,9 +410,15 @@ func main() {
 				return name + ": " + m
 			}
 		}
+		// wall budget of the concurrent part as a whole (a harness that hits it is
+		// reported as not exhaustive): quick 4 min, thorough 12 min
+		deadline := time.Now().Add(4 * time.Minute)
+		if run.Thorough() {
+			deadline = time.Now().Add(12 * time.Minute)
+		}
 		for _, r := range concRoles(run.Thorough()) {
 			h := concHarness(r)
-			res := rep.VRT(run, h, 99, evid.Workers(), 700, fpConc(r.name))
+			res := rep.VRT(run, h, 99, evid.Workers(), max(20, int(time.Until(deadline).Seconds())), fpConc(r.name))
 			run.States += int64(res.Executions)
 			run.Traces += int64(res.Executions)
 			overl, rejAfter, dropped := 0, 0, 0
